@@ -35,8 +35,22 @@ def _annotate(text):
     return text.replace("fold_left (fun ", "@fold_left (bool * Z) (Z * Z) (fun ")
 
 
+def _int_locals(path, qualname):
+    """every local that is assigned, augmented or bound by the for-loop is an integer in these two functions
+    (so renaming a local does not break the tie); anything else the translator meets still fails closed"""
+    import ast
+    fn = py2coq.get_function(path, qualname)
+    kinds = {a.arg: "int" for a in fn.args.args if a.arg != "self"}
+    for node in ast.walk(fn):
+        if isinstance(node, ast.Name) and isinstance(node.ctx, ast.Store):
+            kinds[node.id] = "int"
+    return kinds
+
+
 def generate(repo):
     path = os.path.join(repo, "boltons", "setutils.py")
+    CFG_REAL["kinds"] = _int_locals(path, "IndexedSet._get_real_index")
+    CFG_APP["kinds"] = _int_locals(path, "IndexedSet._get_apparent_index")
     return {"C11_Src": HEADER % "boltons/setutils.py"
             + _annotate(py2coq.translate(path, "IndexedSet._get_real_index", CFG_REAL)) + "\n"
             + _annotate(py2coq.translate(path, "IndexedSet._get_apparent_index", CFG_APP))}
